@@ -146,7 +146,14 @@ def _frame(kind, ch: Optional[Choices], uniq, via):
                                          "erreur interne du serveur — réessayez plus tard " + "é" * 150,
                                          "サーバーエラー" * 40][d("fr.nj", 6)]}
     if kind == "unknown":
-        return {"k": "unknown", "type": ["weird", "connection_error", "NEXT", "data", 5, True, "неизвестный-тип-" + "ы" * 130][d("fr.unk", 7)]}
+        t_ = ["weird", "connection_error", "NEXT", "data", 5, True, "неизвестный-тип-" + "ы" * 130,
+              "Next", "PING", "Ping", "Complete", "COMPLETE", "Error", "CONNECTION_ACK", "Connection_Ack", "pONG"][d("fr.unk", 16)]
+        fr_ = {"k": "unknown", "type": t_}
+        if isinstance(t_, str) and t_.lower() == "next":
+            fr_["payload"] = {"data": {"v": 0, "s": "must not be delivered"}}
+        if isinstance(t_, str) and t_.lower() == "error":
+            fr_["payload"] = [{"message": "must not be raised as a GraphQL error"}]
+        return fr_
     if kind == "notype":
         return {"k": "notype", "variant": d("fr.nt", 9)}
     if kind == "next_nodata":
